@@ -111,3 +111,11 @@ w("C20", {
  "outside": ["capacities > 3, more than 5 calls, more than 2 preemptions", "Resize"],
  "assumptions": ["goroutine schedules are explored at synchronisation granularity (channel operations); happens-before race detection runs on every explored schedule"],
 })
+
+# C20 burst runs are appended to the C20 props written above
+_c20 = json.load(open(os.path.join(D, "C20.json")))
+for tier, specs in (("quick", [(2, 18, 1), (3, 20, 0)]), ("thorough", [(2, 18, 2), (3, 20, 1), (1, 17, 1), (4, 35, 0)])):
+    for (N, n, P) in specs:
+        _c20[tier].append({"harness": "vxH20Burst", "args": [str(N), str(n)], "files": ["api", "c20"], "preempt": P, "race": True, "reach": ["final"], "timeout_s": 1500,
+                           "bounds": f"capacity {N}, {n} Log calls back to back (the logger's queue holds 16), then a Filter with symbolic type after quiescence; <= {P} preemptions"})
+json.dump(_c20, open(os.path.join(D, "C20.json"), "w"), indent=1)
